@@ -99,6 +99,12 @@ def gen_states(r, card, mode, allow_negative=False):
         pool = ["yes", "no", "low", "mid", "high", "s0", "s1", "s2", "s3", "on", "off", "a", "b", "c", "d", "T", "F"]
         return r.sample(pool, card)
     if mode == "int":
+        if card >= 2 and r.random() < 0.3:
+            # a non-identity permutation of 0..card-1: every name is also a state number, of another state
+            xs = list(range(card))
+            while xs == list(range(card)):
+                r.shuffle(xs)
+            return xs
         return r.sample([0, 1, 2, 3, 5, 7, 10, 20, 30, 100] + ([-1] if allow_negative else []), card)
     if mode == "int_sorted":
         return sorted(r.sample(range(0, 12), card))
@@ -385,11 +391,14 @@ def descendants(world, vs):
 # Markov-network worlds (factors over logical variables)
 # --------------------------------------------------------------------------------------------------
 def gen_mn(streams, max_n=6, min_n=2, max_card=3, max_joint=4096, connected=True, dup_rate=0.0,
-           label_mode=None, state_named=None, big_card_rate=0.0):
+           label_mode=None, state_named=None, big_card_rate=0.0, scale_rate=0.0, hub_rate=0.0):
     r = streams.s("world")
     n = r.randint(min_n, max_n)
-    ring = n >= 5 and r.random() < 0.3
-    card = [r.randint(1 if r.random() < 0.08 else 2, max_card if not ring else 2) for _ in range(n)]
+    hub = hub_rate > 0 and max_n >= 6 and r.random() < hub_rate
+    if hub:
+        n = r.randint(6, max(6, min(9, max_n + 2)))
+    ring = not hub and n >= 5 and r.random() < 0.3
+    card = [r.randint(1 if r.random() < 0.08 and not hub else 2, max_card if not (ring or hub) else 2) for _ in range(n)]
     if big_card_rate and r.random() < big_card_rate:
         card[r.randrange(n)] = r.choice([10, 11, 12])
     while _prod(card) > max_joint:
@@ -398,7 +407,22 @@ def gen_mn(streams, max_n=6, min_n=2, max_card=3, max_joint=4096, connected=True
     density = r.choice([0.2, 0.4, 0.7])
     edges = []
     order = shuffled(r, range(n))
-    if ring:
+    if hub:
+        # a hub clique with several satellite cliques hanging off it (>= 4 maximal cliques that all meet the hub):
+        # the clique tree has many candidate edges of equal weight and only some spanning trees have the running-intersection property
+        hs = r.randint(2, 3)
+        hubv = order[:hs]
+        for a, b in itertools.combinations(hubv, 2):
+            edges.append((a, b))
+        for s_ in order[hs:]:
+            att = r.sample(hubv, r.randint(1, min(2, hs)))
+            for h in att:
+                edges.append((h, s_))
+            if r.random() < 0.2:
+                o = r.choice(order[hs:])
+                if o != s_ and (o, s_) not in edges and (s_, o) not in edges:
+                    edges.append((s_, o))
+    elif ring:
         # a long chordless cycle (plus at most one chord): triangulation has to cascade fill-in edges
         for i in range(n):
             edges.append((order[i], order[(i + 1) % n]))
@@ -471,6 +495,13 @@ def gen_mn(streams, max_n=6, min_n=2, max_card=3, max_joint=4096, connected=True
             uniq.append(f)
         factors = uniq
     factors = shuffled(r, factors)
+    if scale_rate and r.random() < scale_rate:
+        # potentials are only defined up to a constant: whole-model or per-factor scales far from 1
+        mode = r.choice(["all", "all", "each"])
+        sc = r.choice([1e-3, 1e-4, 1e-6, 1e3, 1e5])
+        for f in factors:
+            k = sc if mode == "all" else r.choice([1e-4, 1e-2, 1.0, 1e2, 1e-6])
+            f["values"] = [x * k for x in f["values"]]
     rl = streams.s("labels")
     labels, label_mode = gen_labels(rl, n, label_mode)
     if state_named is None:
